@@ -1,0 +1,7 @@
+//go:build !verif
+
+package vm
+
+import "github.com/nspcc-dev/neo-go/pkg/crypto/keys"
+
+func verifMultisigGate(int, *keys.PublicKey) {}
